@@ -16,13 +16,13 @@ import (
 
 type Ctx struct {
 	Current string // file that names the case being executed (for crash attribution)
-	Tier   string
-	Seed   int64
-	Model  Model
-	Corpus string
-	Replay string
-	Res    *Result
-	Rng    Rng
+	Tier    string
+	Seed    int64
+	Model   Model
+	Corpus  string
+	Replay  string
+	Res     *Result
+	Rng     Rng
 }
 
 func (c *Ctx) Thorough() bool { return c.Tier == "thorough" }
